@@ -100,10 +100,25 @@ func wordsFrom(s string) []uint16 {
 	return ws
 }
 
+// Half of the decodes (chosen by the input) go into a receiver that has already decoded other bytes, successfully or
+// not: what a decoder reports must be a function of its input alone.
+func c06Dirty(b []byte, prior func([]byte)) {
+	if !c13Used([]string{string(b)}) {
+		return
+	}
+	p := make([]byte, 96)
+	for i := range p {
+		p[i] = byte(0xA7 - 3*i)
+	}
+	p[0], p[1], p[2] = 0x04, 0x05, 0x00 // a plausible buffer format and a short length for the string-like types
+	defer func() { recover() }()
+	prior(p)
+}
+
 var c06Types = []wireType{
 	{"str", 3,
 		func(v []string) ([]byte, []string, error) { s := strFrom(v); b, e := s.Marshal(); return b, strFields(&s), e },
-		func(b []byte) ([]string, int, error) { s := types.SMB_STRING{}; n, e := s.Unmarshal(b); return strFields(&s), n, e }},
+		func(b []byte) ([]string, int, error) { s := types.SMB_STRING{}; c06Dirty(b, func(p []byte) { s.Unmarshal(p) }); n, e := s.Unmarshal(b); return strFields(&s), n, e }},
 	{"oem", 3,
 		func(v []string) ([]byte, []string, error) {
 			s := types.OEM_STRING{SMB_STRING: strFrom(v)}
@@ -112,16 +127,18 @@ var c06Types = []wireType{
 		},
 		func(b []byte) ([]string, int, error) {
 			s := types.OEM_STRING{}
+			c06Dirty(b, func(p []byte) { s.Unmarshal(p) })
 			n, e := s.Unmarshal(b)
 			return strFields(&s.SMB_STRING), n, e
 		}},
 	{"date", 3,
 		func(v []string) ([]byte, []string, error) { d := dateFrom(v); b, e := d.Marshal(); return b, dateFields(&d), e },
-		func(b []byte) ([]string, int, error) { d := types.SMB_DATE{}; n, e := d.Unmarshal(b); return dateFields(&d), n, e }},
+		func(b []byte) ([]string, int, error) { d := types.SMB_DATE{}; c06Dirty(b, func(p []byte) { d.Unmarshal(p) }); n, e := d.Unmarshal(b); return dateFields(&d), n, e }},
 	{"ftime", 2,
 		func(v []string) ([]byte, []string, error) { t := timeFrom(v); b, e := t.Marshal(); return b, timeFields(&t), e },
 		func(b []byte) ([]string, int, error) {
 			t := data_structures.FILETIME{}
+			c06Dirty(b, func(p []byte) { t.Unmarshal(p) })
 			n, e := t.Unmarshal(b)
 			return timeFields(&t), n, e
 		}},
@@ -133,6 +150,7 @@ var c06Types = []wireType{
 		},
 		func(b []byte) ([]string, int, error) {
 			r := types.LOCKING_ANDX_RANGE32{}
+			c06Dirty(b, func(p []byte) { r.Unmarshal(p) })
 			n, e := r.Unmarshal(b)
 			return []string{utoa(uint64(r.PID)), utoa(uint64(r.ByteOffset)), utoa(uint64(r.LengthInBytes))}, n, e
 		}},
@@ -145,6 +163,7 @@ var c06Types = []wireType{
 		},
 		func(b []byte) ([]string, int, error) {
 			r := types.LOCKING_ANDX_RANGE64{}
+			c06Dirty(b, func(p []byte) { r.Unmarshal(p) })
 			n, e := r.Unmarshal(b)
 			return r64Fields(&r), n, e
 		}},
@@ -156,6 +175,7 @@ var c06Types = []wireType{
 		},
 		func(b []byte) ([]string, int, error) {
 			s := types.SMB_NMPIPE_STATUS{}
+			c06Dirty(b, func(p []byte) { s.Unmarshal(p) })
 			n, e := s.Unmarshal(b)
 			return []string{utoa(uint64(s.ICount)), utoa(uint64(s.Flags))}, n, e
 		}},
@@ -163,6 +183,7 @@ var c06Types = []wireType{
 		func(v []string) ([]byte, []string, error) { k := keyFrom(v); b, e := k.Marshal(); return b, keyFields(&k), e },
 		func(b []byte) ([]string, int, error) {
 			k := types.SMB_RESUME_KEY{}
+			c06Dirty(b, func(p []byte) { k.Unmarshal(p) })
 			n, e := k.Unmarshal(b)
 			return keyFields(&k), n, e
 		}},
@@ -175,6 +196,7 @@ var c06Types = []wireType{
 		},
 		func(b []byte) ([]string, int, error) {
 			d := types.SMB_DIRECTORY_INFORMATION{}
+			c06Dirty(b, func(p []byte) { d.Unmarshal(p) })
 			n, e := d.Unmarshal(b)
 			return dirFields(&d), n, e
 		}},
@@ -186,6 +208,7 @@ var c06Types = []wireType{
 		},
 		func(b []byte) ([]string, int, error) {
 			a := types.SMB_FILE_ATTRIBUTES{}
+			c06Dirty(b, func(p []byte) { a.Unmarshal(p) })
 			n, e := a.Unmarshal(b)
 			return []string{utoa(uint64(a.Attributes))}, n, e
 		}},
@@ -197,6 +220,7 @@ var c06Types = []wireType{
 		},
 		func(b []byte) ([]string, int, error) {
 			a := andx.AndX{}
+			c06Dirty(b, func(p []byte) { a.Unmarshal(p) })
 			n, e := a.Unmarshal(b)
 			return []string{utoa(uint64(a.AndXCommand)), utoa(uint64(a.AndXReserved)), utoa(uint64(a.AndXOffset))}, n, e
 		}},
@@ -208,6 +232,7 @@ var c06Types = []wireType{
 		},
 		func(b []byte) ([]string, int, error) {
 			p := parameters.Parameters{}
+			c06Dirty(b, func(q []byte) { p.Unmarshal(q) })
 			n, e := p.Unmarshal(b)
 			return []string{utoa(uint64(p.WordCount)), wordsTok(p.Words)}, n, e
 		}},
@@ -219,6 +244,7 @@ var c06Types = []wireType{
 		},
 		func(b []byte) ([]string, int, error) {
 			d := data.Data{}
+			c06Dirty(b, func(p []byte) { d.Unmarshal(p) })
 			n, e := d.Unmarshal(b)
 			return []string{utoa(uint64(d.ByteCount)), hx(d.Bytes)}, n, e
 		}},
@@ -235,6 +261,7 @@ var c06Types = []wireType{
 		},
 		func(b []byte) ([]string, int, error) {
 			x := version.Version{}
+			c06Dirty(b, func(p []byte) { x.Unmarshal(p) })
 			n, e := x.Unmarshal(b)
 			return verFields(&x), n, e
 		}},
